@@ -470,3 +470,106 @@ Proof.
     + apply name_eqb_spec in E. subst m. destruct (name_eqb n n') eqn:E2; [apply name_eqb_spec in E2; congruence | reflexivity].
     + simpl. destruct (name_eqb m n'); [reflexivity | exact IH].
 Qed.
+
+(* ---------- unique keys are kept by the FIB and strategy operations too ---------- *)
+Lemma nh_add_keys l f c k : In k (map fst (nh_add l f c)) -> k = f \/ In k (map fst l).
+Proof.
+  induction l as [|[g d] l IH]; simpl.
+  - intros [H|[]]; left; auto.
+  - destruct (g =? f) eqn:E; simpl.
+    + intros [H|H]; [right; left; exact H | right; right; exact H].
+    + intros [H|H]; [right; left; exact H|]. destruct (IH H); [left; assumption | right; right; assumption].
+Qed.
+Lemma nh_add_nodup l f c : NoDup (map fst l) -> NoDup (map fst (nh_add l f c)).
+Proof.
+  induction l as [|[g d] l IH]; simpl; intros Hnd.
+  - constructor; [intros [] | constructor].
+  - inversion Hnd as [|k l' Hnotin Hnd']; subst. destruct (g =? f) eqn:E; simpl.
+    + constructor; assumption.
+    + constructor; [|apply IH; exact Hnd'].
+      intros HI. apply nh_add_keys in HI as [HI|HI]; [subst; rewrite N.eqb_refl in E; discriminate | contradiction].
+Qed.
+Lemma nh_add_nonempty l f c : nh_add l f c <> [].
+Proof. destruct l as [|[g d] l]; simpl; [discriminate|]. destruct (g =? f); discriminate. Qed.
+Lemma fib_insert_keys t n f c k : In k (map fst (fib_insert t n f c)) -> k = n \/ In k (map fst t).
+Proof.
+  induction t as [|[m l] t IH]; simpl.
+  - intros [H|[]]; left; auto.
+  - destruct (name_eqb m n) eqn:E; simpl.
+    + intros H; right; exact H.
+    + intros [H|H]; [right; left; exact H|]. destruct (IH H); [left; assumption | right; right; assumption].
+Qed.
+Lemma fib_insert_wf t n f c : fib_wf t -> fib_wf (fib_insert t n f c).
+Proof.
+  intros [Hnd Hall]. induction t as [|[m l] t IH]; simpl.
+  - split; [constructor; [intros []|constructor] | constructor; [|constructor]].
+    split; [simpl; constructor; [intros []|constructor] | discriminate].
+  - inversion Hnd as [|k l' Hnotin Hnd']; subst. inversion Hall as [|e l' [He Hne] Hall']; subst.
+    destruct (name_eqb m n) eqn:E; simpl.
+    + split; [constructor; assumption|]. constructor; [|exact Hall'].
+      split; [apply nh_add_nodup; exact He | apply nh_add_nonempty].
+    + destruct (IH Hnd' Hall') as [IH1 IH2]. split.
+      * constructor; [|exact IH1]. intros HI. apply fib_insert_keys in HI as [HI|HI]; [|contradiction].
+        subst. rewrite name_eqb_refl in E. discriminate.
+      * constructor; [split; assumption | exact IH2].
+Qed.
+Lemma nh_remove_keys l f k : In k (map fst (nh_remove l f)) -> In k (map fst l).
+Proof.
+  induction l as [|[g d] l IH]; simpl; [auto|].
+  destruct (g =? f); simpl; [intros H; right; exact H|]. intros [H|H]; [left; exact H | right; apply IH; exact H].
+Qed.
+Lemma nh_remove_nodup l f : NoDup (map fst l) -> NoDup (map fst (nh_remove l f)).
+Proof.
+  induction l as [|[g d] l IH]; simpl; intros Hnd; [constructor|].
+  inversion Hnd as [|k l' Hnotin Hnd']; subst. destruct (g =? f); simpl; [exact Hnd'|].
+  constructor; [|apply IH; exact Hnd']. intros HI. apply nh_remove_keys in HI. contradiction.
+Qed.
+Lemma fib_remove_keys t n f k : In k (map fst (fib_remove t n f)) -> In k (map fst t).
+Proof.
+  induction t as [|[m l] t IH]; simpl; [auto|].
+  destruct (name_eqb m n).
+  - destruct (nh_remove l f); simpl; [intros H; right; exact H | intros H; exact H].
+  - simpl. intros [H|H]; [left; exact H | right; apply IH; exact H].
+Qed.
+Lemma fib_remove_wf t n f : fib_wf t -> fib_wf (fib_remove t n f).
+Proof.
+  intros [Hnd Hall]. induction t as [|[m l] t IH]; simpl; [split; constructor|].
+  inversion Hnd as [|k l' Hnotin Hnd']; subst. inversion Hall as [|e l' [He Hne] Hall']; subst.
+  destruct (name_eqb m n) eqn:E.
+  - destruct (nh_remove l f) eqn:R.
+    + split; assumption.
+    + split; [constructor; assumption|]. constructor; [|exact Hall'].
+      split; [rewrite <- R; apply nh_remove_nodup; exact He | discriminate].
+  - destruct (IH Hnd' Hall') as [IH1 IH2]. split.
+    + constructor; [|exact IH1]. intros HI. apply fib_remove_keys in HI. contradiction.
+    + constructor; [split; assumption | exact IH2].
+Qed.
+
+Lemma strat_set_keys t n s k : In k (map fst (strat_set t n s)) -> k = n \/ In k (map fst t).
+Proof.
+  induction t as [|[m x] t IH]; simpl.
+  - intros [H|[]]; left; auto.
+  - destruct (name_eqb m n) eqn:E; simpl.
+    + intros H; right; exact H.
+    + intros [H|H]; [right; left; exact H|]. destruct (IH H); [left; assumption | right; right; assumption].
+Qed.
+Lemma strat_set_nodup t n s : NoDup (map fst t) -> NoDup (map fst (strat_set t n s)).
+Proof.
+  induction t as [|[m x] t IH]; simpl; intros Hnd.
+  - constructor; [intros [] | constructor].
+  - inversion Hnd as [|k l Hnotin Hnd']; subst. destruct (name_eqb m n) eqn:E; simpl.
+    + constructor; assumption.
+    + constructor; [|apply IH; exact Hnd'].
+      intros HI. apply strat_set_keys in HI as [HI|HI]; [subst; rewrite name_eqb_refl in E; discriminate | contradiction].
+Qed.
+Lemma strat_unset_keys t n k : In k (map fst (strat_unset t n)) -> In k (map fst t).
+Proof.
+  induction t as [|[m x] t IH]; simpl; [auto|].
+  destruct (name_eqb m n); simpl; [intros H; right; exact H|]. intros [H|H]; [left; exact H | right; apply IH; exact H].
+Qed.
+Lemma strat_unset_nodup t n : NoDup (map fst t) -> NoDup (map fst (strat_unset t n)).
+Proof.
+  induction t as [|[m x] t IH]; simpl; intros Hnd; [constructor|].
+  inversion Hnd as [|k l Hnotin Hnd']; subst. destruct (name_eqb m n); simpl; [exact Hnd'|].
+  constructor; [|apply IH; exact Hnd']. intros HI. apply strat_unset_keys in HI. contradiction.
+Qed.
